@@ -121,7 +121,11 @@ func (*hconc) Run(rc *core.RunCtx) *core.RunResult {
 	var jobs []*concJob
 	for i := 0; i < k; i++ {
 		var j *concJob
-		if i > 0 && t.Intn(3) == 0 {
+		collide := 3
+		if rc.Race {
+			collide = 2 // two jobs inside the same decoder are what the race detector needs
+		}
+		if i > 0 && t.Intn(collide) == 0 {
 			// deliberate collision: the same file again, maybe with another program or option
 			p := jobs[t.Intn(len(jobs))]
 			c := *p
@@ -133,7 +137,12 @@ func (*hconc) Run(rc *core.RunCtx) *core.RunResult {
 				j.optForce = !j.optForce
 			}
 		} else {
-			j = &concJob{s: samples[t.Intn(len(samples))], prog: concProgs[t.Intn(len(concProgs))]}
+			si := t.Intn(len(samples))
+			if i == 0 {
+				// consecutive run indices walk the pool so that every format gets its turn
+				si = (rc.Idx + t.Intn(2)) % len(samples)
+			}
+			j = &concJob{s: samples[si], prog: concProgs[t.Intn(len(concProgs))]}
 			j.optForce = t.Intn(8) == 0 && j.s.Format != ""
 		}
 		j.planKind, j.planAt = simos.PlanNone, 0
@@ -188,6 +197,7 @@ func (*hconc) Run(rc *core.RunCtx) *core.RunResult {
 	// interleaved execution
 	pol := []int{simrt.PolSticky8, simrt.PolSticky8, simrt.PolSticky64, simrt.PolSticky64, simrt.PolPCT, simrt.PolSticky2, simrt.PolUniform, simrt.PolSequential}[t.Intn(8)]
 	sim := simrt.New(t, pol, 6000000)
+	sim.WatchdogMs = 10000
 	// jobs interleave at every disk call and terminal write; statement-level
 	// pre-emption inside the ctx reader is H-IO's and H-CTX's business
 	sim.Coarse = t.Intn(4) != 0
